@@ -603,4 +603,12 @@ func init() {
 		Variant{Name: "benign: same edit seen by C01", Property: "C01", File: pst, Benign: true,
 			Old: "\t\t\t\ts.idRing.Discard(pendingDiscard)\n", New: "\t\t\t\tn := pendingDiscard\n\t\t\t\ts.idRing.Discard(n)\n"},
 	)
+	addVariants(
+		Variant{Name: "benign: ackByTarget entry ensured inside the delivery loop, before the hand-over", Property: "C01", File: "seeded-benign/C01-entry-inside-loop-before-handover.diff", Benign: true,
+			Patch: "seeded-benign/C01-entry-inside-loop-before-handover.diff"},
+		Variant{Name: "benign: same patch seen by C04", Property: "C04", File: "seeded-benign/C01-entry-inside-loop-before-handover.diff", Benign: true,
+			Patch: "seeded-benign/C01-entry-inside-loop-before-handover.diff"},
+		Variant{Name: "benign: same patch seen by C03", Property: "C03", File: "seeded-benign/C01-entry-inside-loop-before-handover.diff", Benign: true,
+			Patch: "seeded-benign/C01-entry-inside-loop-before-handover.diff"},
+	)
 }
